@@ -678,7 +678,8 @@ def run_plan(repo, keys, band=True):
     me.attrs["config"].d.update({"scheduler_func": Lib("sched.generic"), "band": (X.var("bandlo"), X.var("bandhi")) if band else None,
                                  "force_target_nf": False, "bmin": X.var("bmin"), "Kdes": X.var("Kdes"), "Jdes": X.var("Jdes"), "num_patch_pts": None})
     key = AN + ".plan"
-    r = R.I.call_func(Func(key, repo.get(key)), [me], {}, St(), None)
+    R.top = St()
+    r = R.I.call_func(Func(key, repo.get(key)), [me], {}, R.top, None)
     # reference mask through the same lifter
     st = St(); st.mod = "speckit/analysis.py"
     st.env.update({"f": ArrParam("sch.f", shape=(nf,)), "fmin": X.var("bandlo"), "fmax": X.var("bandhi")})
